@@ -12,7 +12,7 @@ use super::{
 };
 use crate::core::{
     check::{CaseOut, CheckDef},
-    sim::{self, draw, Params},
+    sim::{self, chance, draw, Params},
 };
 
 pub static DEF: CheckDef = CheckDef {
@@ -119,6 +119,29 @@ fn run(variant: usize) -> CaseOut {
     let op = if draw(3) == 0 { "mutation" } else { "query" };
     let mut query = gen_operation(op, GenCfg { typename: false, ..GenCfg::default() });
     let mut rejected_at = None;
+    // now and then the request names its operation and passes a variable
+    let mut operation_name: Option<&str> = None;
+    let mut variables: Option<serde_json::Value> = None;
+    if chance(1, 3) {
+        if let Some(pos) = query.find("echo(n: ") {
+            let digit = query[pos + 8..].chars().next().filter(|c| c.is_ascii_digit());
+            if let Some(dg) = digit {
+                let head = format!("{op} {{");
+                if query.starts_with(&head) {
+                    query = format!("{op} Q($v: Int!) {{{}", &query[head.len()..]).replacen(&format!("echo(n: {dg})"), "echo(n: $v)", 1);
+                    operation_name = Some("Q");
+                    variables = Some(json!({"v": dg.to_digit(10).unwrap()}));
+                    sim::count("probe:request-with-operation-name-and-variables");
+                }
+            }
+        } else if chance(1, 2) {
+            let head = format!("{op} {{");
+            if query.starts_with(&head) {
+                query = format!("{op} Q {{{}", &query[head.len()..]);
+                operation_name = Some("Q");
+            }
+        }
+    }
     if variant >= 2 {
         match draw(3) {
             0 => {
@@ -138,7 +161,7 @@ fn run(variant: usize) -> CaseOut {
     // plan from a fault-free baseline (only for valid requests)
     set_latency(0, 0);
     if rejected_at.is_none() {
-        let base = run_request("baseline", flavour, 0, &query, Some(Params::default()));
+        let base = run_request_with("baseline", flavour, 0, &query, operation_name, variables.clone(), Some(Params::default()));
         let Some(base_resp) = base.resp else {
             out.viol("C30/stall", format!("baseline did not complete: {query}"));
             return out;
@@ -163,12 +186,12 @@ fn run(variant: usize) -> CaseOut {
     // run without extensions
     set_latency(draw(1 << 16) as u64, [1u32, 0, 2, 3][draw(4) as usize]);
     let p0 = sim::draw_params();
-    let plain = run_request("no-extensions", flavour, 0, &query, Some(p0));
+    let plain = run_request_with("no-extensions", flavour, 0, &query, operation_name, variables.clone(), Some(p0));
     // run with extensions, hooks suspending
     world(|w| w.ext_gates = draw(4) != 0);
     set_latency(draw(1 << 16) as u64, [1u32, 0, 2, 3][draw(4) as usize]);
     let p1 = sim::draw_params();
-    let ext = run_request("with-extensions", flavour, n_ext, &query, Some(p1));
+    let ext = run_request_with("with-extensions", flavour, n_ext, &query, operation_name, variables.clone(), Some(p1));
     let (Some(r0), Some(r1)) = (plain.resp.clone(), ext.resp.clone()) else {
         out.viol("C30/stall", format!("request did not complete (plain: {:?}, with extensions: {:?}); query: {query}; faults: {faults_desc}", plain.end, ext.end));
         return out;
